@@ -265,18 +265,27 @@ Qed.
 (* sync_properties, gen                                                 *)
 (* ------------------------------------------------------------------ *)
 
-Lemma decide_sync_properties_run_iff : forall i o,
-    decide_sync_properties i o = Run <-> i = true /\ o = true.
-Proof. intros [] []; cbn; split; intros H; try discriminate H; try (destruct H; discriminate); auto. Qed.
-
-Lemma decide_sync_properties_reject_iff : forall i o,
-    decide_sync_properties i o = Reject <-> i = false \/ o = false.
+Lemma decide_sync_properties_run_iff : forall c i o,
+    decide_sync_properties c i o = Run <-> c = true /\ i = true /\ o = true.
 Proof.
-  intros [] []; cbn; split; intros H; try discriminate H; auto; destruct H; discriminate.
+  intros [] [] []; cbn; split; intros H; try discriminate H; auto;
+    destruct H as [H1 [H2 H3]]; discriminate.
 Qed.
 
-Lemma decide_sync_properties_never_raises : forall i o e, decide_sync_properties i o <> Raise e.
-Proof. intros [] [] e; discriminate. Qed.
+Lemma decide_sync_properties_reject_iff : forall c i o,
+    decide_sync_properties c i o = Reject <-> c = false \/ i = false \/ o = false.
+Proof.
+  intros [] [] []; cbn; split; intros H; try discriminate H; auto;
+    destruct H as [H|[H|H]]; discriminate.
+Qed.
+
+Lemma decide_sync_properties_never_raises : forall c i o e, decide_sync_properties c i o <> Raise e.
+Proof. intros [] [] [] e; discriminate. Qed.
+
+(* an accepted sync_properties invocation pairs every input parameter with an output parameter: the shape of the
+   arguments cannot make the run fail *)
+Lemma decide_sync_properties_run_counts : forall c i o, decide_sync_properties c i o = Run -> c = true.
+Proof. intros c i o H. apply decide_sync_properties_run_iff in H. tauto. Qed.
 
 Lemma decide_gen_run_iff : forall o, decide_gen o = Run <-> o = false.
 Proof. intros []; cbn; split; intros H; try discriminate H; reflexivity. Qed.
